@@ -43,8 +43,12 @@ enum Rel {
     BeforePlus8,
     Inside,
     AfterPlus8,
+    /// the second spec starts on the last byte of the first (one byte shared)
+    AfterMinus1,
+    /// the second spec ends on the first byte of the first (one byte shared)
+    BeforePlus1,
 }
-const RELS: [Rel; 8] = [
+const RELS: [Rel; 10] = [
     Rel::SameOffset,
     Rel::DirectlyAfter,
     Rel::AfterMinus8,
@@ -53,6 +57,8 @@ const RELS: [Rel; 8] = [
     Rel::BeforePlus8,
     Rel::Inside,
     Rel::AfterPlus8,
+    Rel::AfterMinus1,
+    Rel::BeforePlus1,
 ];
 impl Rel {
     fn name(self) -> &'static str {
@@ -65,6 +71,8 @@ impl Rel {
             Rel::BeforePlus8 => "before-plus-8",
             Rel::Inside => "inside",
             Rel::AfterPlus8 => "after-plus-8",
+            Rel::AfterMinus1 => "after-minus-1",
+            Rel::BeforePlus1 => "before-plus-1",
         }
     }
     /// Offset of a spec of range `rb` placed in this relation to `[a, a+ra)`.
@@ -78,6 +86,8 @@ impl Rel {
             Rel::BeforePlus8 => (a + 8).checked_sub(rb),
             Rel::Inside => Some(a + ra / 2),
             Rel::AfterPlus8 => Some(a + ra + 8),
+            Rel::AfterMinus1 => Some(a + ra - 1),
+            Rel::BeforePlus1 => (a + 1).checked_sub(rb),
         }
     }
 }
@@ -371,9 +381,9 @@ struct Stats {
     verdict_class: [[u64; 2]; 2],
     /// [global?][number of specs]
     sets: [[u64; 4]; 2],
-    rel: [u64; 8],
+    rel: [u64; 10],
     /// [via][relation][overlapping?] (sets of >= 2 specs)
-    rel_by_via: [[[u64; 2]; 8]; 2],
+    rel_by_via: [[[u64; 2]; 10]; 2],
     overlapping_none_at_offset_0: u64,
     hook_panics: u64,
 }
@@ -572,8 +582,8 @@ pub fn run(args: &Args, rep: &mut Report) {
         via: [0; 2],
         verdict_class: [[0; 2]; 2],
         sets: [[0; 4]; 2],
-        rel: [0; 8],
-        rel_by_via: [[[0; 2]; 8]; 2],
+        rel: [0; 10],
+        rel_by_via: [[[0; 2]; 10]; 2],
         overlapping_none_at_offset_0: 0,
         hook_panics: 0,
     };
